@@ -101,6 +101,20 @@ return caught, s1, ok2, type(m2), coroutine.status(co)`, "registry overflow|dead
 	{"C19", "read-by-count-beyond-65536", `local f = io.open("$F", "w") for i = 1, 20 do f:write(("%05d"):format(i):rep(2000)) end f:close() f = io.open("$F") local a = f:read(65536) local p1 = f:seek() local b = f:read(65537) local p2 = f:seek() f:seek("set", 1) local c = f:read(131073) local p3 = f:seek() local d = f:read(300000) local e = f:read(1) f:close() return #a, p1, #b, p2, #c, p3, c:sub(-5), #d, e`, "65536|65536|65537|131073|131073|131074|40001|68926|nil", nil},
 	{"C09", "nil-and-nan-keys-raise-also-for-a-nil-value", `local t = {} local nan = 0/0 return pcall(function() t[nil] = nil end), pcall(function() t[nan] = nil end), pcall(function() return {[nil] = nil} end), pcall(function() t[nil] = 1 end), pcall(function() t[nan] = 1 end), pcall(rawset, t, nil, nil), pcall(rawset, t, nan, nil), next(t) == nil, t[nil] == nil and t[nan] == nil`, "false|false|false|false|false|false|false|true|true", nil},
 	{"C01", "function-statements-behind-300-constants", `local parts = {"local cp = {"} for i = 1, 300 do parts[#parts + 1] = (i + 0.5) .. "," end parts[#parts + 1] = "} local obj = {} function obj:name(x) return self == obj, x end function obj.plain(x) return x end local a = {b = {}} function a.b.c() return 'abc' end function a.b:m() return self == a.b end function gfun() return 'g' end local function lfun() return 'l' end return obj:name(7), obj.plain(8), a.b.c(), a.b:m(), gfun(), lfun(), #cp" return loadstring(table.concat(parts))()`, "true|8|abc|true|g|l|300", nil},
+	{"C02", "tail-call-to-a-vararg-function-keeps-arg", `local out = {}
+for np = 0, 3 do
+  local params = {} for i = 1, np do params[i] = "p" .. i end
+  local plist = table.concat(params, ",") .. (np > 0 and ", ..." or "...")
+  local src = "local function f(" .. plist .. ") return type(arg), arg and arg.n, arg and arg[1] end local function direct(...) local a, b, c = f(...) return a, b, c end local function tail(...) return f(...) end local function tailfixed() return f(1, 2, 3) end return direct, tail, tailfixed"
+  local direct, tail, tailfixed = loadstring(src)()
+  if (tailfixed()) ~= "table" then out[#out + 1] = np .. "/fixed" end
+  for nargs = 0, 5 do
+    local args = {} for i = 1, nargs do args[i] = i * 10 end
+    local a1, b1, c1 = direct(unpack(args)) local a2, b2, c2 = tail(unpack(args))
+    if a1 ~= "table" or a1 ~= a2 or b1 ~= b2 or c1 ~= c2 then out[#out + 1] = np .. "/" .. nargs .. ":" .. tostring(a1) .. tostring(b1) .. tostring(c1) .. "~" .. tostring(a2) .. tostring(b2) .. tostring(c2) end
+  end
+end
+return #out, out[1]`, "0|nil", nil},
 	// eighth batch
 	{"C19", "read-format-must-be-a-number-or-a-string", `local f = io.open("$F") local a, b, c = pcall(f.read, f, true), pcall(f.read, f, nil), pcall(f.read, f, {}) local d = f:read(2, "*l") f:close() return a, b, c, d`, "false|false|false|01", nil},
 	{"C19", "io.lines-on-a-closed-default-input-raises-at-once", `io.input("$F") io.close(io.input()) local closed = pcall(io.lines) io.input("$F") local open = pcall(io.lines) return closed, open`, "false|true", nil},
